@@ -516,3 +516,54 @@ Proof.
   - intros w' t He Hk' _. rewrite Hex in He. rewrite Hgw in Hk'. destruct (wref_eqb w' w); [discriminate|auto].
   - intros w'. rewrite Hgw. destruct (wref_eqb w' w); [discriminate|apply C].
 Qed.
+
+(* ---- leaving a critical section ------------------------------------------------------------------------------ *)
+Lemma X_drop : forall ext t s,
+  X (t :: ext) s ->
+  (forall w, t_worker (get_task s t) = Some w ->
+     is_phantom w = false /\ worker_exists s w = true /\ k_task (get_worker s w) = Some t /\ t_resp (get_task s t) = None) ->
+  (forall w, worker_exists s w = true -> k_task (get_worker s w) = Some t -> t_worker (get_task s t) = Some w) ->
+  (forall o, op_alive s o = true -> tsk s o = t -> queued s o -> idle_live s t) ->
+  (forall o, op_alive s o = true -> tsk s o = t -> In (o_inv (get_op s o), o) (t_ops (get_task s t))) ->
+  (forall i o, In (i, o) (t_ops (get_task s t)) -> op_alive s o = true /\ tsk s o = t /\ o_inv (get_op s o) = i) ->
+  X ext s.
+Proof.
+  intros ext t s [A B C Q Qn L O1 O2] D1 D2 D3 D4 D5.
+  assert (Hcase : forall t', ~ In t' ext -> t' = t \/ ~ In t' (t :: ext)).
+  { intros t' Hn. destruct (Nat.eq_dec t' t) as [->|Hne]; [left; reflexivity|right]. intros [H|H]; [congruence|contradiction]. }
+  constructor; auto.
+  - intros t' w Hn Hw. destruct (Hcase t' Hn) as [->|Hn']; [apply D1; exact Hw|apply A; assumption].
+  - intros w t' He Hk Hn. destruct (Hcase t' Hn) as [->|Hn']; [apply D2; assumption|apply B; assumption].
+  - intros o Ha Hn Hq. destruct (Hcase _ Hn) as [E|Hn']; [rewrite E; apply (D3 o Ha E Hq)|apply L; assumption].
+  - intros o Ha Hn. destruct (Hcase _ Hn) as [E|Hn']; [rewrite E; apply (D4 o Ha E)|apply O1; assumption].
+  - intros t' i o Hn Hin. destruct (Hcase t' Hn) as [->|Hn']; [apply D5; exact Hin|apply O2; assumption].
+Qed.
+
+(* ---- the operation table: distinct, bounded indices ------------------------------------------------------------ *)
+Definition ON (s : state) : Prop :=
+  NoDup (map fst (s_ops s)) /\ forall o, In o (map fst (s_ops s)) -> (o < s_nops s)%nat.
+
+Lemma ON_frame : forall s s', s_ops s' = s_ops s -> s_nops s' = s_nops s -> ON s -> ON s'.
+Proof. unfold ON. intros s s' -> ->. auto. Qed.
+Lemma ON_upd_op : forall s o f, ON s -> ON (upd_op o f s).
+Proof.
+  unfold ON, upd_op. intros s o f [H1 H2]. destruct (aget Nat.eqb o (s_ops s)) eqn:E; [|auto]. cbn.
+  rewrite (map_fst_aset Nat.eqb nat_eqb_eq), E. auto.
+Qed.
+Lemma ON_newop : forall s x, ON s -> ON (s <| s_nops ::= S |> <| s_ops ::= fun l => l ++ [(s_nops s, x)] |>).
+Proof.
+  unfold ON. intros s x [H1 H2]. cbn. rewrite map_app. cbn. split.
+  - rewrite <- (rev_involutive (map fst (s_ops s) ++ [s_nops s])). apply NoDup_rev. rewrite rev_app_distr. cbn.
+    constructor; [rewrite <- in_rev; intro Hin; specialize (H2 _ Hin); lia|apply NoDup_rev; exact H1].
+  - intros o Ho. apply in_app_or in Ho. destruct Ho as [Ho|[<-|[]]]; [specialize (H2 _ Ho)|]; lia.
+Qed.
+Lemma ON_delop : forall s o, ON s -> ON (s <| s_ops := adel Nat.eqb o (s_ops s) |>).
+Proof.
+  unfold ON. intros s o [H1 H2]. cbn. split; [apply (NoDup_keys_adel Nat.eqb); exact H1|].
+  intros o' Ho'. apply H2. eapply map_fst_adel_incl. exact Ho'.
+Qed.
+
+(* no registered worker carries the id the scheduler uses for "no worker" *)
+Definition NPh (s : state) : Prop := forall w, worker_exists s w = true -> is_phantom w = false.
+Lemma NPh_mono : forall s s', (forall w, worker_exists s' w = true -> worker_exists s w = true) -> NPh s -> NPh s'.
+Proof. unfold NPh. intros s s' H H0 w Hw. apply H0. apply H. exact Hw. Qed.
